@@ -1,10 +1,14 @@
 (* Extraction of the executable model to OCaml. ExtrOcamlBasic only: bool, option, unit,
    list, prod, sumbool, comparison map to OCaml's; N, Z, positive, nat stay Coq's datatypes. *)
 From Coq Require Extraction ExtrOcamlBasic.
-From Clvm Require Import Model.Bstr Model.Varint.
+From Clvm Require Import Model.Bstr Model.Varint Model.Err Model.Sexp Model.Sha256 Model.Classic.
 Extraction Language OCaml.
 Separate Extraction
   Model.Bstr.wf_bytes Model.Bstr.be_value
   Model.Varint.write_varint Model.Varint.read_varint
+  Model.Sha256.sha256 Model.Sexp.sexp_eqb
+  Model.Classic.node_to_bytes Model.Classic.node_to_bytes_limit Model.Classic.ser Model.Classic.node_from_stream
+  Model.Classic.tree_hash_from_stream Model.Classic.parse_triples Model.Classic.is_canonical_serialization
+  Model.Classic.serialized_length_trusted Model.Classic.cache_serialized_length Model.Classic.treehash Model.Classic.parse
   BinNat.N.of_nat BinNat.N.to_nat BinInt.Z.of_nat BinInt.Z.to_nat BinInt.Z.of_N BinInt.Z.to_N
   BinInt.Z.opp BinInt.Z.add BinInt.Z.mul BinNat.N.add BinNat.N.mul BinInt.Z.ltb BinNat.N.eqb BinNat.N.div_eucl BinInt.Z.div_eucl BinNat.N.ltb BinNat.N.leb BinNat.N.sub BinNat.N.compare BinInt.Z.compare.
